@@ -94,6 +94,8 @@ func VerifC18ResyncSplit() {
 	perm := c18perms[pi]
 	var batch []*object.Object
 	tsLast := perm[2] == 2
+	names := [...]string{"first part", "last part", "tombstone"}
+	order := names[perm[0]] + ", " + names[perm[1]] + ", " + names[perm[2]]
 	for _, i := range perm {
 		batch = append(batch, all[i])
 	}
@@ -122,8 +124,8 @@ func VerifC18ResyncSplit() {
 			vrt.Assert(!served, "no part of a tombstoned split object is available after the rebuild")
 			vrt.Assert(inGarbage(o), "the parts of a removed split object are reclaimable after the rebuild (they are in the garbage list)")
 		} else {
-			vrt.Assert(!served, "no part of a tombstoned split object is available after the rebuild (tombstone read before some of the parts)")
-			vrt.Assert(inGarbage(o), "the parts of a removed split object are reclaimable after the rebuild (tombstone read before some of the parts)")
+			vrt.Assert(!served, "no part of a tombstoned split object is available after the rebuild (blob order: "+order+")")
+			vrt.Assert(inGarbage(o), "the parts of a removed split object are reclaimable after the rebuild (blob order: "+order+")")
 		}
 	}
 	vrt.Reach("end")
